@@ -31,6 +31,15 @@ CXX_HEADERS_BY_NAME = ("intrin_portable.h", "soft_aes.h")
 PRELUDE = r"""
 /* ---- rxv extraction prelude ---- */
 #include <stdbool.h>
+#include <stdint.h>
+#include <stddef.h>
+#include <string.h>
+#include <stdlib.h>
+#include <limits.h>
+#include <math.h>
+#include <fenv.h>
+#include <float.h>
+#include <assert.h>
 #ifndef NULL
 #define NULL ((void*)0)
 #endif
@@ -307,6 +316,10 @@ class Translator:
         # pass 1: discover classes, enum classes, templates, functions
         units = []
         for it in items:
+            if not it.file.startswith(self.repo):
+                # system header content: replaced by #include lines of the standard C headers (prelude)
+                self.fire("system header item replaced by #include")
+                continue
             if not self.is_cxx_file(it.file):
                 units.append(("verbatim", it, None))
                 continue
@@ -676,6 +689,18 @@ class Translator:
                 c.pre.append(d)
                 continue
             if re.match(r"(union|struct)\s*\{", mm):
+                um = re.match(r"union\s*\{(.*)\}\s*;$", mt, re.S)
+                if um and all("*" in x for x in um.group(1).split(";") if x.strip()):
+                    # CBMC 6.11 mis-resolves reads of a non-first pointer member of a union through a pointer to the
+                    # enclosing struct (spurious failures, measured).  The members are emitted as separate fields:
+                    # an over-approximation as long as no kept function reads a member after writing another one.
+                    self.fire("anonymous union of pointers de-aliased")
+                    for x in um.group(1).split(";"):
+                        if x.strip():
+                            nm = re.search(r"(\w+)\s*$", x.strip())
+                            c.fields.append((self.decl_fix(x.strip()) + ";", [nm.group(1)]))
+                            c.field_names.append(nm.group(1))
+                    continue
                 c.fields.append((self.decl_fix(mt), []))
                 # names inside an anonymous union are directly accessible
                 inner = mm[mm.index("{") + 1:mm.rindex("}")]
